@@ -104,6 +104,8 @@ static void c15_run(void) {
 			uint32_t r = g_n(100);
 			op->kind = r < 66 ? M_MERGE : r < 80 ? M_SUSPEND_RESUME : r < 88 ? M_REPLACE_HANDLER : M_PAUSE;
 			op->val = op->kind == M_PAUSE ? (uint64_t)g_range(1, 200) * USEC : D.type == 1 ? (1ull << g_n(20)) : 1 + g_n(1000);
+			// the data is an unsigned long: a quarter of the values use its upper half (sums stay far below 2^64)
+			if (op->kind != M_PAUSE && g_chance(1, 4)) op->val = D.type == 1 ? (1ull << (20 + g_n(43))) : D.type == 0 ? ((uint64_t)(1 + g_n(1000)) << (20 + g_n(30))) : ((uint64_t)(1 + g_n(1000)) << (20 + g_n(40))) | g_n(1000);
 			op->burst = g_range(1, 4);
 			if (op->kind == M_SUSPEND_RESUME && g_chance(1, 3)) op->burst = 0;   // a bare suspend/resume pair: may land inside one invocation of the source
 		}
